@@ -359,6 +359,51 @@ Qed.
 
 Ltac seq3 H := destruct H as [->|[->| ->]].
 
+Lemma f_client_cs name v ty : noslash name -> dec_cs v = Some ty ->
+  f_client (cs_key name, v) = Emit (name, v).
+Proof.
+  intros Hn Hd.
+  unfold f_client, cs_key. change (has_prefix K_clients (client_prefix name ++ K_clientState)) with true.
+  cbn [negb]. rewrite splitn3_client by exact Hn. rewrite beq_refl. cbn [negb]. rewrite Hd. reflexivity.
+Qed.
+
+Lemma f_cons_cons name rev h v : noslash name -> rev < two64 -> h < two64 -> dec_cons v = true ->
+  f_cons (cons_key name rev h, v) = Emit (name, rev, h, v).
+Proof.
+  intros Hn Hrev Hh Hd.
+  unfold f_cons, cons_key. change (has_prefix K_clients (client_prefix name ++ cons_rkey rev h)) with true.
+  cbn [negb]. rewrite splitn4_client by exact Hn. unfold cons_rkey.
+  rewrite cut_app by apply noslash_lit. rewrite beq_refl, length_height_bytes. cbn [Nat.eqb andb].
+  rewrite Hd, firstn_height_bytes, skipn_height_bytes, !be_val_be64 by assumption. reflexivity.
+Qed.
+
+Lemma f_relayer_rel name v : relayer_name v = Some name ->
+  f_relayer (relayer_key name, v) = Emit (name, v).
+Proof.
+  intros Hr. unfold f_relayer, relayer_key.
+  rewrite has_prefix_app. cbn [negb]. rewrite Hr. reflexivity.
+Qed.
+
+Lemma has_prefix_seq_key fam a b n : has_prefix fam (seq_key fam a b n) = true.
+Proof. rewrite seq_key_form. apply has_prefix_app. Qed.
+
+Lemma f_hash_seq f a b n v : seq_fam f -> noslash a -> noslash b -> n < two64 ->
+  f_hash f (seq_key f a b n, v) = Emit (a, b, n, v).
+Proof.
+  intros Hff Ha Hb Hn. unfold f_hash. rewrite has_prefix_seq_key. cbn [negb].
+  rewrite split_seq_key by (first [assumption | apply seq_fam_noslash; assumption]).
+  cbn [length Nat.ltb Nat.leb last nth]. rewrite parse_uint_dec by exact Hn. reflexivity.
+Qed.
+
+Lemma f_seq_send a b n : noslash a -> noslash b -> n < two64 ->
+  f_seq K_nextsend (next_send_key a b, be64 n) = Emit (a, b, n).
+Proof.
+  intros Ha Hb Hn.
+  unfold f_seq, next_send_key. change (has_prefix K_nextsend (path [K_nextsend; a; b])) with true.
+  cbn [negb]. rewrite split_pair_key by (try apply noslash_of_string_consts; assumption).
+  cbn [length Nat.ltb Nat.leb nth]. rewrite be_to_u64_be64 by exact Hn. reflexivity.
+Qed.
+
 Lemma f_client_wf s k v : wf_entry s k v ->
   f_client (k, v) = Skip \/
   exists name, noslash name /\ k = cs_key name /\ f_client (k, v) = Emit (name, v).
@@ -366,9 +411,7 @@ Proof.
   intros H. destruct H as [v|v|name v Hr|name v ty Hn Hd|name rev h v Hn Hrev Hh Hd
                            |name rk v csv ty Hn Hl Hd Hm|fam a b n v Hf Ha Hb Hn Hv|a b n Ha Hb Hn|a b v|a b v];
     try (left; reflexivity).
-  - right. exists name. split; [exact Hn|]. split; [reflexivity|].
-    unfold f_client, cs_key. change (has_prefix K_clients (client_prefix name ++ K_clientState)) with true.
-    cbn [negb]. rewrite splitn3_client by exact Hn. rewrite beq_refl. cbn [negb]. rewrite Hd. reflexivity.
+  - right. exists name. split; [exact Hn|]. split; [reflexivity|]. eapply f_client_cs; eassumption.
   - left. unfold f_client, cons_key. change (has_prefix K_clients (client_prefix name ++ cons_rkey rev h)) with true.
     cbn [negb]. rewrite splitn3_client by exact Hn. reflexivity.
   - left. unfold f_client. change (has_prefix K_clients (client_prefix name ++ rk)) with true.
@@ -390,10 +433,7 @@ Proof.
     cbn [negb]. rewrite splitn4_client by exact Hn.
     rewrite cut_noslash by apply noslash_lit. reflexivity.
   - right. exists name, rev, h. repeat (split; [assumption|]). split; [reflexivity|].
-    unfold f_cons, cons_key. change (has_prefix K_clients (client_prefix name ++ cons_rkey rev h)) with true.
-    cbn [negb]. rewrite splitn4_client by exact Hn. unfold cons_rkey.
-    rewrite cut_app by apply noslash_lit. rewrite beq_refl, length_height_bytes. cbn [Nat.eqb andb].
-    rewrite Hd, firstn_height_bytes, skipn_height_bytes, !be_val_be64 by assumption. reflexivity.
+    apply f_cons_cons; assumption.
   - left. unfold f_cons. change (has_prefix K_clients (client_prefix name ++ rk)) with true.
     cbn [negb]. rewrite splitn4_client by exact Hn.
     destruct (cut rk) as [x [rest|]] eqn:Ec; [|reflexivity].
@@ -408,13 +448,9 @@ Proof.
   intros H. destruct H as [v|v|name v Hr|name v ty Hn Hd|name rev h v Hn Hrev Hh Hd
                            |name rk v csv ty Hn Hl Hd Hm|fam a b n v Hf Ha Hb Hn Hv|a b n Ha Hb Hn|a b v|a b v];
     try (left; reflexivity).
-  - right. exists name. split; [reflexivity|]. unfold f_relayer, relayer_key.
-    rewrite has_prefix_app. cbn [negb]. rewrite Hr. reflexivity.
+  - right. exists name. split; [reflexivity|]. apply f_relayer_rel. exact Hr.
   - seq3 Hf; left; reflexivity.
 Qed.
-
-Lemma has_prefix_seq_key fam a b n : has_prefix fam (seq_key fam a b n) = true.
-Proof. rewrite seq_key_form. apply has_prefix_app. Qed.
 
 Lemma f_hash_wf s F k v : seq_fam F -> wf_entry s k v ->
   f_hash F (k, v) = Skip \/
@@ -425,9 +461,7 @@ Proof.
                            |name rk v csv ty Hn Hl Hd Hm|fam a b n v Hf Ha Hb Hn Hv|a b n Ha Hb Hn|a b v|a b v];
     try (seq3 HF; left; reflexivity).
   assert (D : forall f, seq_fam f -> f_hash f (seq_key f a b n, v) = Emit (a, b, n, v)).
-  { intros f Hff. unfold f_hash. rewrite has_prefix_seq_key. cbn [negb].
-    rewrite split_seq_key by (first [assumption | apply seq_fam_noslash; assumption]).
-    cbn [length Nat.ltb Nat.leb last nth]. rewrite parse_uint_dec by exact Hn. reflexivity. }
+  { intros f Hff. apply f_hash_seq; assumption. }
   seq3 HF; seq3 Hf; try (left; reflexivity);
     right; exists a, b, n; repeat (split; [assumption|]); (split; [reflexivity|]);
     (split; [first [exact Hv | intros X; exfalso; revert X; clear; intros X; apply beq_spec in X; vm_compute in X; discriminate]|]);
@@ -447,7 +481,303 @@ Proof.
   - seq3 HF; seq3 Hf; left; reflexivity.
   - seq3 HF; try (left; reflexivity).
     right. exists a, b, n. repeat (split; [assumption|]). repeat (split; [reflexivity|]).
-    unfold f_seq, next_send_key. change (has_prefix K_nextsend (path [K_nextsend; a; b])) with true.
-    cbn [negb]. rewrite split_pair_key by (try apply noslash_of_string_consts; assumption).
-    cbn [length Nat.ltb Nat.leb nth]. rewrite be_to_u64_be64 by exact Hn. reflexivity.
+    apply f_seq_send; assumption.
 Qed.
+
+(** * coverage of the key kinds *)
+
+Lemma covered_client name rk : covered (client_prefix name ++ rk) = true.
+Proof. reflexivity. Qed.
+Lemma covered_relayer name : covered (relayer_key name) = true.
+Proof. reflexivity. Qed.
+Lemma covered_seq F a b n : seq_fam F -> covered (seq_key F a b n) = true.
+Proof. intros H. seq3 H; reflexivity. Qed.
+Lemma covered_send a b : covered (next_send_key a b) = true.
+Proof. reflexivity. Qed.
+Lemma covered_clean a b : covered (clean_key a b) = false.
+Proof. reflexivity. Qed.
+Lemma covered_maxack a b : covered (maxack_key a b) = false.
+Proof. reflexivity. Qed.
+
+(** * metadata *)
+
+Lemma in_meta_pass sel name s rk v :
+  In (rk, v) (meta_pass sel name s) <-> In (client_prefix name ++ rk, v) s /\ sel rk = true.
+Proof.
+  unfold meta_pass. rewrite in_flat_map. split.
+  - intros [[k0 v0] [He Hin]]. cbn [fst snd] in Hin.
+    destruct (strip (client_prefix name) k0) as [rk0|] eqn:Es; [|destruct Hin].
+    destruct (sel rk0) eqn:Esel; [|destruct Hin].
+    destruct Hin as [X|[]]. inversion X; subst rk0 v0.
+    apply strip_some in Es. subst k0. split; assumption.
+  - intros [He Hsel]. exists (client_prefix name ++ rk, v). split; [exact He|].
+    cbn [fst snd]. rewrite strip_app, Hsel. left. reflexivity.
+Qed.
+
+Lemma in_meta_of ty name s rk v :
+  In (rk, v) (meta_of ty name s) <-> In (client_prefix name ++ rk, v) s /\ meta_sel ty rk = true.
+Proof.
+  unfold meta_of, meta_sel. rewrite in_app_iff, !in_meta_pass, orb_true_iff. tauto.
+Qed.
+
+Definition meta_write (name : bytes) (kv : bytes * bytes) : bytes * bytes :=
+  (client_prefix name ++ fst kv, snd kv).
+
+Lemma in_all_meta cls s k v :
+  In (k, v) (flat_map (fun nm : bytes * list (bytes * bytes) => map (meta_write (fst nm)) (snd nm)) (all_meta cls s)) <->
+  exists name csv ty rk, In (name, csv) cls /\ dec_cs csv = Some ty /\
+                         k = client_prefix name ++ rk /\ In (rk, v) (meta_of ty name s).
+Proof.
+  rewrite in_flat_map. split.
+  - intros [[name m] [Hnm Hin]]. cbn [fst snd] in Hin.
+    unfold all_meta in Hnm. apply in_flat_map in Hnm. destruct Hnm as [[name' csv] [Hc Hnm]].
+    cbn [fst snd] in Hnm. destruct (dec_cs csv) as [ty|] eqn:Ed; [|destruct Hnm].
+    destruct (meta_of ty name' s) as [|x l] eqn:Em; [destruct Hnm|].
+    destruct Hnm as [X|[]]. inversion X; subst name m.
+    apply in_map_iff in Hin. destruct Hin as [[rk v'] [Ew Hin]].
+    unfold meta_write in Ew. cbn [fst snd] in Ew. inversion Ew; subst k v'.
+    exists name', csv, ty, rk. rewrite Em. auto.
+  - intros (name & csv & ty & rk & Hc & Hd & -> & Hin).
+    exists (name, meta_of ty name s). split.
+    + unfold all_meta. apply in_flat_map. exists (name, csv). split; [exact Hc|].
+      cbn [fst snd]. rewrite Hd. destruct (meta_of ty name s); [destruct Hin | left; reflexivity].
+    + cbn [fst snd]. apply in_map_iff. exists (rk, v). split; [reflexivity | exact Hin].
+Qed.
+
+(** * the writes of the import, for a well-formed store *)
+
+Theorem export_writes (s : store) : wf_store s ->
+  exists g, export s = Some g /\
+    forall k v, In (k, v) (writes g) <->
+      (k = K_chainName /\ v = chain_name_of s) \/
+      (k = K_rules /\ v = rules_value (lookup K_rules s)) \/
+      (In (k, v) s /\ covered k = true).
+Proof.
+  intros [ND WF].
+  destruct (collect_spec f_client s) as [cls [Ecls Hcls]].
+  { intros [k v] He. destruct (f_client_wf s k v (WF k v He)) as [->|[n [_ [_ ->]]]]; eauto. }
+  destruct (collect_spec f_cons s) as [cns [Ecns Hcns]].
+  { intros [k v] He. destruct (f_cons_wf s k v (WF k v He)) as [->|(n & r & h & _ & _ & _ & _ & ->)]; eauto. }
+  destruct (collect_spec f_relayer s) as [rel [Erel Hrel]].
+  { intros [k v] He. destruct (f_relayer_wf s k v (WF k v He)) as [->|(n & _ & ->)]; eauto. }
+  assert (HT : forall F, seq_fam F -> exists l, collect (f_hash F) s = Some l /\
+                 forall x, In x l <-> exists e, In e s /\ f_hash F e = Emit x).
+  { intros F HF. apply collect_spec. intros [k v] He.
+    destruct (f_hash_wf s F k v HF (WF k v He)) as [->|(a & b & n & _ & _ & _ & _ & _ & ->)]; eauto. }
+  destruct (HT K_ack) as [acks [Eacks Hacks]]; [unfold seq_fam; tauto|].
+  destruct (HT K_commit) as [cms [Ecms Hcms]]; [unfold seq_fam; tauto|].
+  destruct (HT K_receipt) as [rcs [Ercs Hrcs]]; [unfold seq_fam; tauto|]. clear HT.
+  assert (HT : forall F, send_fam F -> exists l, collect (f_seq F) s = Some l /\
+                 forall x, In x l <-> exists e, In e s /\ f_seq F e = Emit x).
+  { intros F HF. apply collect_spec. intros [k v] He.
+    destruct (f_seq_wf s F k v HF (WF k v He)) as [->|(a & b & n & _ & _ & _ & _ & _ & _ & ->)]; eauto. }
+  destruct (HT K_nextsend) as [ss [Ess Hss]]; [unfold send_fam; tauto|].
+  destruct (HT K_nextrecv) as [rs [Ers _]]; [unfold send_fam; tauto|].
+  destruct (HT K_nextack) as [as_ [Eas _]]; [unfold send_fam; tauto|]. clear HT.
+  exists (mkG (mkCG cls (all_meta cls s) cns (chain_name_of s) rel) (mkPG acks cms rcs ss rs as_) (lookup K_rules s)).
+  split.
+  { unfold export, export_client, export_packet.
+    rewrite Ecls, Ecns, Erel, Eacks, Ecms, Ercs, Ess, Ers, Eas. reflexivity. }
+  intros k v. unfold writes, client_writes, packet_writes.
+  cbn [g_client g_packet g_rules g_meta g_clients g_cons g_relayers g_chain g_acks g_commits g_receipts g_sendseqs].
+  change (fun nm : bytes * list (bytes * bytes) =>
+            map (fun kv : bytes * bytes => (client_prefix (fst nm) ++ fst kv, snd kv)) (snd nm))
+    with (fun nm : bytes * list (bytes * bytes) => map (meta_write (fst nm)) (snd nm)).
+  rewrite !in_app_iff. cbn [In].
+  split.
+  - intros [[Hmeta|[Hcs|[Hcons|[Hr|[Hchain|[]]]]]] | [[Hack|[Hcm|[Hrc|Hs]]] | [Hrules|[]]]].
+    + (* metadata *)
+      right; right. apply in_all_meta in Hmeta.
+      destruct Hmeta as (name & csv & ty & rk & _ & _ & -> & Hin).
+      apply in_meta_of in Hin. split; [tauto | apply covered_client].
+    + (* client states *)
+      right; right. apply in_map_iff in Hcs. destruct Hcs as [[name v'] [Ew Hin]].
+      cbn [fst snd] in Ew. inversion Ew; subst k v'. clear Ew.
+      apply Hcls in Hin. destruct Hin as [[k0 v0] [He Hf]].
+      destruct (f_client_wf s k0 v0 (WF k0 v0 He)) as [X|(n & _ & -> & X)]; rewrite X in Hf; [discriminate|].
+      inversion Hf; subst. split; [exact He | apply covered_client].
+    + (* consensus states *)
+      right; right. apply in_map_iff in Hcons. destruct Hcons as [[[[name rev] h] v'] [Ew Hin]].
+      inversion Ew; subst k v'. clear Ew.
+      apply Hcns in Hin. destruct Hin as [[k0 v0] [He Hf]].
+      destruct (f_cons_wf s k0 v0 (WF k0 v0 He)) as [X|(n & r & hh & _ & _ & _ & -> & X)]; rewrite X in Hf; [discriminate|].
+      inversion Hf; subst. split; [exact He | apply covered_client].
+    + (* relayers *)
+      right; right. apply in_map_iff in Hr. destruct Hr as [[name v'] [Ew Hin]].
+      cbn [fst snd] in Ew. inversion Ew; subst k v'. clear Ew.
+      apply Hrel in Hin. destruct Hin as [[k0 v0] [He Hf]].
+      destruct (f_relayer_wf s k0 v0 (WF k0 v0 He)) as [X|(n & -> & X)]; rewrite X in Hf; [discriminate|].
+      inversion Hf; subst. split; [exact He | apply covered_relayer].
+    + left. inversion Hchain. auto.
+    + (* acknowledgements *)
+      right; right. apply in_map_iff in Hack. destruct Hack as [[[[a b] n] v'] [Ew Hin]].
+      inversion Ew; subst k v'. clear Ew.
+      apply Hacks in Hin. destruct Hin as [[k0 v0] [He Hf]].
+      destruct (f_hash_wf s K_ack k0 v0 (or_introl eq_refl) (WF k0 v0 He)) as [X|(a' & b' & n' & _ & _ & _ & -> & _ & X)];
+        rewrite X in Hf; [discriminate|].
+      inversion Hf; subst. split; [exact He | apply covered_seq; unfold seq_fam; tauto].
+    + (* commitments *)
+      right; right. apply in_map_iff in Hcm. destruct Hcm as [[[[a b] n] v'] [Ew Hin]].
+      inversion Ew; subst k v'. clear Ew.
+      apply Hcms in Hin. destruct Hin as [[k0 v0] [He Hf]].
+      destruct (f_hash_wf s K_commit k0 v0 (or_intror (or_introl eq_refl)) (WF k0 v0 He)) as [X|(a' & b' & n' & _ & _ & _ & -> & _ & X)];
+        rewrite X in Hf; [discriminate|].
+      inversion Hf; subst. split; [exact He | apply covered_seq; unfold seq_fam; tauto].
+    + (* receipts *)
+      right; right. apply in_map_iff in Hrc. destruct Hrc as [[[[a b] n] v'] [Ew Hin]].
+      inversion Ew; subst k v. clear Ew.
+      apply Hrcs in Hin. destruct Hin as [[k0 v0] [He Hf]].
+      destruct (f_hash_wf s K_receipt k0 v0 (or_intror (or_intror eq_refl)) (WF k0 v0 He)) as [X|(a' & b' & n' & _ & _ & _ & -> & Hv & X)];
+        rewrite X in Hf; [discriminate|].
+      inversion Hf; subst. rewrite <- (Hv eq_refl). split; [exact He | apply covered_seq; unfold seq_fam; tauto].
+    + (* send sequences *)
+      right; right. apply in_map_iff in Hs. destruct Hs as [[[a b] n] [Ew Hin]].
+      inversion Ew; subst k v. clear Ew.
+      apply Hss in Hin. destruct Hin as [[k0 v0] [He Hf]].
+      destruct (f_seq_wf s K_nextsend k0 v0 (or_introl eq_refl) (WF k0 v0 He)) as [X|(a' & b' & n' & _ & _ & _ & _ & -> & -> & X)];
+        rewrite X in Hf; [discriminate|].
+      inversion Hf; subst. split; [exact He | apply covered_send].
+    + right; left. inversion Hrules. auto.
+  - intros [[-> ->]|[[-> ->]|[He Hc]]].
+    + left. do 4 right. left. reflexivity.
+    + right. right. left. reflexivity.
+    + pose proof (WF k v He) as Hw.
+      destruct Hw as [v|v|name v Hr|name v ty Hn Hd|name rev h v Hn Hrev Hh Hd
+                      |name rk v csv ty Hn Hl Hd Hm|fam a b n v Hf Ha Hb Hn Hv|a b n Ha Hb Hn|a b v|a b v];
+        try (vm_compute in Hc; discriminate).
+      * (* relayer *)
+        left. do 3 right. left. apply in_map_iff. exists (name, v). split; [reflexivity|].
+        apply Hrel. exists (relayer_key name, v). split; [exact He | apply f_relayer_rel; exact Hr].
+      * (* client state *)
+        left. right. left. apply in_map_iff. exists (name, v). split; [reflexivity|].
+        apply Hcls. exists (cs_key name, v). split; [exact He | eapply f_client_cs; eassumption].
+      * (* consensus state *)
+        left. do 2 right. left. apply in_map_iff. exists (name, rev, h, v). split; [reflexivity|].
+        apply Hcns. exists (cons_key name rev h, v). split; [exact He | apply f_cons_cons; assumption].
+      * (* metadata *)
+        left. left. apply in_all_meta. exists name, csv, ty, rk.
+        split; [|split; [exact Hd|split; [reflexivity|]]].
+        -- apply Hcls. exists (cs_key name, csv). split; [apply lookup_in; exact Hl | eapply f_client_cs; eassumption].
+        -- apply in_meta_of. split; assumption.
+      * (* acks / commitments / receipts *)
+        right. left. seq3 Hf.
+        -- left. apply in_map_iff. exists (a, b, n, v). split; [reflexivity|].
+           apply Hacks. exists (seq_key K_ack a b n, v). split; [exact He | apply f_hash_seq; unfold seq_fam; tauto].
+        -- right. left. apply in_map_iff. exists (a, b, n, v). split; [reflexivity|].
+           apply Hcms. exists (seq_key K_commit a b n, v). split; [exact He | apply f_hash_seq; unfold seq_fam; tauto].
+        -- right. right. left. apply in_map_iff. exists (a, b, n, v). split; [rewrite (Hv eq_refl); reflexivity|].
+           apply Hrcs. exists (seq_key K_receipt a b n, v). split; [exact He | apply f_hash_seq; unfold seq_fam; tauto].
+      * (* send sequence *)
+        right. left. do 3 right. apply in_map_iff. exists (a, b, n). split; [reflexivity|].
+        apply Hss. exists (next_send_key a b, be64 n). split; [exact He | apply f_seq_send; assumption].
+Qed.
+
+(** * the re-imported store, key by key *)
+
+(** what the store of a chain started from the export of [s] holds under [k] *)
+Definition expected (s : store) (k : bytes) : option bytes :=
+  if beq k K_chainName then Some (chain_name_of s)
+  else if beq k K_rules then Some (rules_value (lookup K_rules s))
+  else if covered k then lookup k s else None.
+
+Lemma covered_chain : covered K_chainName = false.
+Proof. reflexivity. Qed.
+Lemma covered_rules : covered K_rules = false.
+Proof. reflexivity. Qed.
+
+Theorem roundtrip (s : store) : wf_store s ->
+  exists g, export s = Some g /\ forall k, lookup k (import g) = expected s k.
+Proof.
+  intros WF. destruct (export_writes s WF) as [g [Eg Hw]]. destruct WF as [ND WF].
+  exists g. split; [exact Eg|]. intros k. unfold import, expected.
+  destruct (beq k K_chainName) eqn:E1.
+  { apply beq_spec in E1. subst k. apply apply_writes_in.
+    - apply Hw. left. split; reflexivity.
+    - intros v' Hv'. apply Hw in Hv'. destruct Hv' as [[_ ->]|[[X _]|[_ X]]]; [reflexivity| |].
+      + apply beq_spec in X. vm_compute in X. discriminate.
+      + rewrite covered_chain in X. discriminate. }
+  destruct (beq k K_rules) eqn:E2.
+  { apply beq_spec in E2. subst k. apply apply_writes_in.
+    - apply Hw. right. left. split; reflexivity.
+    - intros v' Hv'. apply Hw in Hv'. destruct Hv' as [[X _]|[[_ ->]|[_ X]]]; [|reflexivity|].
+      + apply beq_spec in X. vm_compute in X. discriminate.
+      + rewrite covered_rules in X. discriminate. }
+  apply beq_false in E1, E2.
+  destruct (covered k) eqn:Ec.
+  - destruct (lookup k s) as [v|] eqn:El.
+    + apply apply_writes_in.
+      * apply Hw. right. right. split; [apply lookup_in; exact El | exact Ec].
+      * intros v' Hv'. apply Hw in Hv'. destruct Hv' as [[X _]|[[X _]|[X _]]]; try contradiction.
+        apply (in_lookup_nodup s k v' ND) in X. congruence.
+    + rewrite apply_writes_notin; [reflexivity|].
+      intros v' Hv'. apply Hw in Hv'. destruct Hv' as [[X _]|[[X _]|[X _]]]; try contradiction.
+      eapply lookup_none_notin; eauto.
+  - rewrite apply_writes_notin; [reflexivity|].
+    intros v' Hv'. apply Hw in Hv'. destruct Hv' as [[X _]|[[X _]|[_ X]]]; try contradiction. congruence.
+Qed.
+
+(** the per-family readings of [expected] *)
+Lemma expected_client_store s name rk : expected s (client_prefix name ++ rk) = lookup (client_prefix name ++ rk) s.
+Proof. reflexivity. Qed.
+Lemma expected_relayer s name : expected s (relayer_key name) = lookup (relayer_key name) s.
+Proof. reflexivity. Qed.
+Lemma expected_seq s F a b n : seq_fam F -> expected s (seq_key F a b n) = lookup (seq_key F a b n) s.
+Proof. intros H. seq3 H; reflexivity. Qed.
+Lemma expected_send s a b : expected s (next_send_key a b) = lookup (next_send_key a b) s.
+Proof. reflexivity. Qed.
+Lemma expected_clean s a b : expected s (clean_key a b) = None.
+Proof. reflexivity. Qed.
+Lemma expected_maxack s a b : expected s (maxack_key a b) = None.
+Proof. reflexivity. Qed.
+
+(** * corollaries in the form used by Properties/C16.v *)
+
+Lemma roundtrip_lookup s g k : wf_store s -> export s = Some g -> lookup k (import g) = expected s k.
+Proof.
+  intros WF Eg. destruct (roundtrip s WF) as [g' [Eg' H]]. rewrite Eg in Eg'. inversion Eg'; subst g'. apply H.
+Qed.
+
+Lemma export_total s : wf_store s -> exists g, export s = Some g.
+Proof. intros WF. destruct (roundtrip s WF) as [g [Eg _]]. eauto. Qed.
+
+Lemma client_store_survives s g name rk : wf_store s -> export s = Some g ->
+  lookup (client_prefix name ++ rk) (import g) = lookup (client_prefix name ++ rk) s.
+Proof. intros WF Eg. rewrite (roundtrip_lookup s g _ WF Eg). apply expected_client_store. Qed.
+
+Lemma consensus_state_survives s g name rev h : wf_store s -> export s = Some g ->
+  lookup (cons_key name rev h) (import g) = lookup (cons_key name rev h) s.
+Proof. intros WF Eg. apply client_store_survives; assumption. Qed.
+
+Lemma client_state_survives s g name : wf_store s -> export s = Some g ->
+  lookup (cs_key name) (import g) = lookup (cs_key name) s.
+Proof. intros WF Eg. apply client_store_survives; assumption. Qed.
+
+Lemma packet_families_survive s g a b n : wf_store s -> export s = Some g ->
+  lookup (commit_key a b n) (import g) = lookup (commit_key a b n) s /\
+  lookup (receipt_key a b n) (import g) = lookup (receipt_key a b n) s /\
+  lookup (ack_key a b n) (import g) = lookup (ack_key a b n) s /\
+  lookup (next_send_key a b) (import g) = lookup (next_send_key a b) s.
+Proof.
+  intros WF Eg. rewrite !(roundtrip_lookup s g _ WF Eg). repeat split; reflexivity.
+Qed.
+
+Lemma registry_survives s g name : wf_store s -> export s = Some g ->
+  lookup (relayer_key name) (import g) = lookup (relayer_key name) s /\
+  lookup K_chainName (import g) = Some (chain_name_of s) /\
+  lookup K_rules (import g) = Some (rules_value (lookup K_rules s)).
+Proof.
+  intros WF Eg. rewrite !(roundtrip_lookup s g _ WF Eg). repeat split; reflexivity.
+Qed.
+
+Lemma nothing_else_appears s g k v : wf_store s -> export s = Some g ->
+  lookup k (import g) = Some v -> k = K_chainName \/ k = K_rules \/ lookup k s = Some v.
+Proof.
+  intros WF Eg. rewrite (roundtrip_lookup s g _ WF Eg). unfold expected.
+  destruct (beq k K_chainName) eqn:E1; [apply beq_spec in E1; auto|].
+  destruct (beq k K_rules) eqn:E2; [apply beq_spec in E2; auto|].
+  destruct (covered k); [auto | discriminate].
+Qed.
+
+Lemma uncovered_never_survive s g a b : wf_store s -> export s = Some g ->
+  lookup (clean_key a b) (import g) = None /\ lookup (maxack_key a b) (import g) = None.
+Proof. intros WF Eg. rewrite !(roundtrip_lookup s g _ WF Eg). split; reflexivity. Qed.
